@@ -232,12 +232,32 @@ var revLookAlikes = []string{"in-addr.arpa", "ip6.arpa", "IN-ADDR.ARPA", "İn-ad
 	// DEL (0x7f), the last ASCII value, where a digit or nibble is expected
 	"\x7f.ip6.arpa", "a.\x7f.ip6.arpa", "\x7f.a.ip6.arpa", "\x7f.0.0.127.in-addr.arpa", "1.\x7f.in-addr.arpa", "0.0.0.0.0.0.0.0.0.0.0.0.0.0.0.0.0.0.0.0.0.0.0.0.0.0.0.0.0.0.0.\x7f.ip6.arpa",
 	"\x7f.0.0.0.0.0.0.0.0.0.0.0.0.0.0.0.0.0.0.0.0.0.0.0.0.0.0.0.0.0.0.0.ip6.arpa", "\x7f::1", "::\x7f", "1:\x7f::", "[::\x7f]:53", "1.2.3.\x7f",
+	// ACE labels: undecodable ones, and ones whose payload is plain ASCII (they decode to that text)
+	"4.3.2.xn--1.in-addr.arpa.", "4.3.2.xn--1.in-addr.arpa", "xn--1.ip6.arpa", "a.xn--0.ip6.arpa", "1.0.0.xn--127-.in-addr.arpa", "xn--1-.0.0.127.in-addr.arpa",
+	"xn--a-.0.0.0.0.0.0.0.0.0.0.0.0.0.0.0.0.0.0.0.0.0.0.0.0.0.0.0.0.0.0.0.ip6.arpa", "1.0.0.127.xn--in-addr-.arpa", "1.0.0.127.in-addr.xn--arpa-",
 	"1_0.0.0.127.in-addr.arpa", "0x1.0.0.127.in-addr.arpa", "0b1.0.0.127.in-addr.arpa", "0o7.0.0.127.in-addr.arpa", "1_1.2_2.3.4.in-addr.arpa", "1.0.0.1_27.in-addr.arpa", "+1.0.0.127.in-addr.arpa",
 	"x192.168.in-addr.arpa", "xx10.in-addr.arpa", "a1.2.in-addr.arpa", "1234.5.in-addr.arpa", "x192.168.1.1.in-addr.arpa", "0192.168.in-addr.arpa", "x1.in-addr.arpa", "ab255.255.in-addr.arpa", "-192.168.in-addr.arpa", "_192.168.in-addr.arpa"}
 
 func genC04(g *G) {
 	for _, in := range longIDNNames() {
 		emitRev(g, []string{"rip", "rpfx", "rext"}, in)
+	}
+	// IPv4-mapped addresses spelled in nibbles (the encoder never prints these): whole names and every
+	// shorter network inside and around ::ffff:0:0/96
+	for _, q := range [][4]byte{{1, 2, 3, 4}, {127, 0, 0, 1}, {0, 0, 0, 0}, {255, 255, 255, 255}, {10, 0, 200, 99}} {
+		var a16 [16]byte
+		a16[10], a16[11] = 0xff, 0xff
+		copy(a16[12:], q[:])
+		full := refName(netip.AddrFrom16(a16))
+		labels := strings.Split(full, ".")
+		for _, v := range []string{full, strings.ToUpper(full), full + "."} {
+			emitRev(g, revAll, v)
+		}
+		for drop := 1; drop <= 12; drop++ {
+			emitRev(g, revAll, strings.Join(labels[drop:], "."))
+		}
+		emitRev(g, revAll, "x."+full)
+		emitRev(g, revAll, "host."+full)
 	}
 	// addresses -> names -> back, in several spellings
 	octs := []byte{0, 1, 9, 10, 99, 100, 199, 200, 255}
@@ -319,6 +339,15 @@ func genC04(g *G) {
 	// roots, wrong roots, look-alikes
 	for _, s := range revLookAlikes {
 		emitRev(g, revAll, s)
+	}
+	// a rune whose code point is 0x100 or 0x200 plus the canonical byte, at every position of a name that
+	// also has an upper-case ASCII letter in front of it
+	for _, name := range []string{"1.0.0.127.In-addr.arpa", "A.0.0.0.0.0.0.0.0.0.0.0.0.0.0.0.0.0.0.0.0.0.0.0.0.0.0.0.0.0.0.1.Ip6.arpa", "1.0.0.127.IN-ADDR.ARPA"} {
+		for p := 0; p < len(name); p++ {
+			for _, off := range []int{0x100, 0x200} {
+				emitRev(g, revAll, name[:p]+string(rune(off+int(name[p])))+name[p+1:])
+			}
+		}
 	}
 	// ip6.arpa names of length 70..74 with a perturbed position
 	base := strings.Repeat("0.", 32) + "ip6.arpa"
